@@ -54,7 +54,7 @@ def nontrivial(trace: List[Dict[str, Any]]) -> bool:
     for ev in trace:
         if ev["e"] == "winddown":
             return False
-        if ev["e"] in ("app_start", "wire", "t_close"):
+        if ev["e"] in ("app_start", "wire", "t_close", "life_recv", "c_connect"):
             return True
     return False
 
@@ -82,6 +82,14 @@ def main(argv: Optional[List[str]] = None) -> int:
         return 2
 
 
+def _runner(name: str):
+    if name == "worker":
+        from . import worker_env
+
+        return worker_env.run_many
+    return run.run_many
+
+
 def check(prop: str, tier: str, seed: int, cap: int = 0) -> int:
     t0 = time.time()
     spec = registry.PROPS[prop]
@@ -89,83 +97,99 @@ def check(prop: str, tier: str, seed: int, cap: int = 0) -> int:
         return check_cases(prop, tier, seed, spec)
     rng = random.Random(seed * 1000003 + int(prop[1:]))
     known = KnownFindings.load()
+    parts = spec.get("parts") or [spec]
 
     # 1. design-level model checking --------------------------------------------------------
     mc_stats = []
-    for inst in spec.get("design", []):
-        if tier == "quick" and inst.get("tier") == "thorough":
-            continue
-        st = tlc.model_check(inst["module"], inst["cfg"], workers=inst.get("workers", 16),
-                             timeout=inst.get("timeout", 3600))
-        if not st["ok"]:
-            print("MACHINERY-FAILURE: design spec %s/%s does not satisfy its properties:\n%s"
-                  % (inst["module"], inst["cfg"], st["output_tail"]))
-            return 2
-        mc_stats.append({"module": inst["module"], "cfg": inst["cfg"], "generated": st["generated"],
-                         "distinct": st["distinct"], "wall_s": st["wall_s"]})
-
-    # 1'. the design with a deviation switched on must exhibit the recorded finding --------------
     dev_stats = []
-    for dv in spec.get("deviations", []):
-        st = tlc.model_check(dv["module"], dv["cfg"], workers=16, timeout=600,
-                             cfg_subst={"Dev <- NoDev": "Dev <- %s" % dv["dev"]})
-        if not st["violated"] or st["violated_invariant"] != dv["expect"]:
-            print("MACHINERY-FAILURE: design spec %s with %s should violate %s but TLC reported: %s\n%s"
-                  % (dv["module"], dv["dev"], dv["expect"], st["violated_invariant"] or "no violation",
-                     st["output_tail"][-1500:]))
-            return 2
-        dev_stats.append({"module": dv["module"], "dev": dv["dev"], "violates": dv["expect"],
-                          "distinct": st["distinct"], "wall_s": st["wall_s"]})
+    for part in parts:
+        for inst in part.get("design", []):
+            if tier == "quick" and inst.get("tier") == "thorough":
+                continue
+            if any(m["module"] == inst["module"] and m["cfg"] == inst["cfg"] for m in mc_stats):
+                continue
+            st = tlc.model_check(inst["module"], inst["cfg"], workers=inst.get("workers", 16),
+                                 timeout=inst.get("timeout", 3600))
+            if not st["ok"]:
+                print("MACHINERY-FAILURE: design spec %s/%s does not satisfy its properties:\n%s"
+                      % (inst["module"], inst["cfg"], st["output_tail"]))
+                return 2
+            mc_stats.append({"module": inst["module"], "cfg": inst["cfg"], "generated": st["generated"],
+                             "distinct": st["distinct"], "wall_s": st["wall_s"]})
+        # 1'. the design with a deviation switched on must exhibit the recorded finding
+        for dv in part.get("deviations", []):
+            st = tlc.model_check(dv["module"], dv["cfg"], workers=16, timeout=600,
+                                 cfg_subst={"Dev <- NoDev": "Dev <- %s" % dv["dev"]})
+            if not st["violated"] or st["violated_invariant"] != dv["expect"]:
+                print("MACHINERY-FAILURE: design spec %s with %s should violate %s but TLC reported: %s\n%s"
+                      % (dv["module"], dv["dev"], dv["expect"], st["violated_invariant"] or "no violation",
+                         st["output_tail"][-1500:]))
+                return 2
+            dev_stats.append({"module": dv["module"], "dev": dv["dev"], "violates": dv["expect"],
+                              "distinct": st["distinct"], "wall_s": st["wall_s"]})
 
-    # 2. stimuli -------------------------------------------------------------------------------
-    scripts: List[Dict[str, Any]] = []
-    for gen in spec["generators"]:
-        scripts.extend(gen(tier, rng))
-    seen = set()
-    uniq = []
-    for sc in scripts:
-        k = script_key(sc)
-        if k not in seen:
-            seen.add(k)
-            uniq.append(sc)
-    scripts = uniq
-    if cap and len(scripts) > cap:
-        scripts = rng.sample(scripts, cap)
-    workers = spec.get("workers", ["asyncio", "trio"])
-    jobs = [(sc, w) for sc in scripts for w in workers]
-
-    # 3. executions ----------------------------------------------------------------------------
-    traces = run.run_many(jobs, seed=seed)
-    for (sc, w), tr in zip(jobs, traces):
-        if isinstance(tr, dict):
-            print("MACHINERY-FAILURE: harness error on %s (%s):\n%s" % (sc.get("fam"), w, tr["harness_error"]))
-            return 2
-
-    # 4. monitor validation --------------------------------------------------------------------
-    monitor = spec["monitor"]
-    verdicts = validate_parallel(monitor, traces)
-
-    # 5. binding self-test ---------------------------------------------------------------------
-    selftest = registry.selftest(prop, monitor, jobs, traces, verdicts)
-    if selftest["failed"]:
-        print("MACHINERY-FAILURE: binding self-test: corrupted traces were accepted: %s" % selftest["failed"])
-        return 2
-
-    # 6. classification ------------------------------------------------------------------------
+    all_jobs: List[Any] = []
+    all_traces: List[Any] = []
     violations = []
     known_hits: Dict[str, int] = {}
-    for (sc, w), tr, v in zip(jobs, traces, verdicts):
-        for clause, ctx in sorted(set(v["fails"])):
-            sig = "%s/%s" % (clause, ctx)
-            entry = known.match(prop, sig, w)
-            if entry is not None:
-                known_hits[entry["line"]] = known_hits.get(entry["line"], 0) + 1
-            else:
-                violations.append((sc, w, tr, clause, ctx))
+    selftests = []
+    monitors = []
+    nscripts = 0
+    fams = set()
+    for part in parts:
+        # 2. stimuli ---------------------------------------------------------------------------
+        scripts: List[Dict[str, Any]] = []
+        for gen in part["generators"]:
+            scripts.extend(gen(tier, rng))
+        seen = set()
+        uniq = []
+        for sc in scripts:
+            k = script_key(sc)
+            if k not in seen:
+                seen.add(k)
+                uniq.append(sc)
+        scripts = uniq
+        if cap and len(scripts) > cap:
+            scripts = rng.sample(scripts, cap)
+        nscripts += len(scripts)
+        fams |= set(sc.get("fam", "") for sc in scripts)
+        workers = part.get("workers", ["asyncio", "trio"])
+        jobs = [(sc, w) for sc in scripts for w in workers]
+
+        # 3. executions ------------------------------------------------------------------------
+        traces = _runner(part.get("runner", "conn"))(jobs, seed=seed)
+        for (sc, w), tr in zip(jobs, traces):
+            if isinstance(tr, dict):
+                print("MACHINERY-FAILURE: harness error on %s (%s):\n%s" % (sc.get("fam"), w, tr["harness_error"]))
+                return 2
+
+        # 4. monitor validation ----------------------------------------------------------------
+        monitor = part["monitor"]
+        monitors.append(monitor)
+        verdicts = validate_parallel(monitor, traces)
+
+        # 5. binding self-test -----------------------------------------------------------------
+        selftest = registry.selftest(part.get("selftest", prop), monitor, jobs, traces, verdicts)
+        if selftest["failed"]:
+            print("MACHINERY-FAILURE: binding self-test: corrupted traces were accepted: %s" % selftest["failed"])
+            return 2
+        selftests.append(selftest["summary"])
+
+        # 6. classification --------------------------------------------------------------------
+        for (sc, w), tr, v in zip(jobs, traces, verdicts):
+            for clause, ctx in sorted(set(v["fails"])):
+                sig = "%s/%s" % (clause, ctx)
+                entry = known.match(prop, sig, w)
+                if entry is not None:
+                    known_hits[entry["line"]] = known_hits.get(entry["line"], 0) + 1
+                else:
+                    violations.append((sc, w, tr, clause, ctx))
+        all_jobs.extend(jobs)
+        all_traces.extend(traces)
+    jobs, traces = all_jobs, all_traces
     for line, n in sorted(known_hits.items()):
         print("KNOWN-FINDING: property=%s %s  [seen in %d executions]" % (prop, line, n))
     rc = 0
-    replay_files = []
     if violations:
         os.makedirs(REPLAYS, exist_ok=True)
         by_sig: Dict[str, Any] = {}
@@ -176,13 +200,11 @@ def check(prop: str, tier: str, seed: int, cap: int = 0) -> int:
             with open(path, "w") as f:
                 json.dump({"property": prop, "clause": clause, "ctx": ctx, "worker": w, "seed": seed,
                            "script": sc, "trace": tr}, f)
-            replay_files.append(path)
             print("VIOLATION property=%s replay=%s clause=%s ctx=%s worker=%s family=%s"
                   % (prop, path, clause, ctx, w, sc.get("fam", "")))
         rc = 1
 
     # 7. evidence ------------------------------------------------------------------------------
-    fams = set(sc.get("fam", "") for sc in scripts)
     nontriv = set()
     for (sc, w), tr in zip(jobs, traces):
         if nontrivial(tr):
@@ -191,7 +213,7 @@ def check(prop: str, tier: str, seed: int, cap: int = 0) -> int:
     samples = []
     for i in sample_idx:
         sc, w = jobs[i]
-        samples.append({"family": sc.get("fam", ""), "worker": w, "steps": sc["steps"][:12],
+        samples.append({"family": sc.get("fam", ""), "worker": w, "steps": sc.get("steps", sc.get("variants", [[]])[0])[:12],
                         "trace_events": len(traces[i]),
                         "trace_head": traces[i][:6]})
     ev = {
@@ -207,17 +229,17 @@ def check(prop: str, tier: str, seed: int, cap: int = 0) -> int:
             "evaluations": len(traces),
             "distinct_nontrivial": len(nontriv),
             "rule": "one evaluation = one stimulus script executed on one worker class of /repo's working "
-                    "tree and validated by TLC against monitor %s; distinct = distinct (script hash, worker); "
-                    "non-trivial = the server reacted (application started, bytes written or transport "
-                    "closed) before the wind-down" % monitor,
+                    "tree and validated by TLC against monitor(s) %s; distinct = distinct (script hash, worker); "
+                    "non-trivial = the server reacted (application started, bytes written, transport "
+                    "closed, lifespan message delivered or connection accepted) before the wind-down" % ", ".join(monitors),
             "design_model_checking": mc_stats,
             "design_deviation_counterexamples": dev_stats,
             "stimulus_families": len(fams),
             "events_validated": sum(len(t) for t in traces),
             "known_findings_hit": sorted(known_hits),
-            "binding_selftest": selftest["summary"],
+            "binding_selftest": "; ".join(selftests),
             "exhaustive": False,
-            "monitor": "spec/props/%s.tla" % monitor,
+            "monitor": ", ".join("spec/props/%s.tla" % m for m in monitors),
         },
         "assumptions": spec.get("assumptions", registry.COMMON_ASSUMPTIONS),
         "wall_s": round(time.time() - t0, 2),
@@ -226,9 +248,9 @@ def check(prop: str, tier: str, seed: int, cap: int = 0) -> int:
     os.makedirs(EVIDENCE, exist_ok=True)
     with open(os.path.join(EVIDENCE, "%s.json" % prop), "w") as f:
         json.dump(ev, f, indent=1)
-    print("%s %s: %d scripts x %d workers, %d events, %d design states, %d known-finding signatures, "
+    print("%s %s: %d scripts, %d executions, %d events, %d design states, %d known-finding signatures, "
           "%d new violation signatures, %.1fs"
-          % (prop, tier, len(scripts), len(workers), ev["coverage"]["events_validated"],
+          % (prop, tier, nscripts, len(traces), ev["coverage"]["events_validated"],
              ev["coverage"]["states"], len(known_hits), ev["violations"], ev["wall_s"]))
     return rc
 
@@ -358,8 +380,18 @@ def replay(prop: str, path: str) -> int:
             print("VIOLATION property=%s replay=%s" % (prop, path))
             return 1
         return 0
-    tr = run.run_one(rep["script"], rep["worker"], rep.get("seed", 0))
-    v = tlc.validate_traces(spec["monitor"], [tr])[0]
+    parts = spec.get("parts") or [spec]
+    part = parts[0]
+    for p_ in parts:
+        if rep.get("clause") and p_.get("runner", "conn") == ("worker" if "ms" in json.dumps(rep["script"].get("cfg", {})) or "graceful" in rep["script"].get("cfg", {}) else "conn"):
+            part = p_
+    if part.get("runner") == "worker":
+        from . import worker_env
+
+        tr = worker_env.run_one(rep["script"], rep["worker"], rep.get("seed", 0))
+    else:
+        tr = run.run_one(rep["script"], rep["worker"], rep.get("seed", 0))
+    v = tlc.validate_traces(part["monitor"], [tr])[0]
     print(json.dumps({"worker": rep["worker"], "fails": v["fails"]}, indent=1))
     for ev in tr:
         print(json.dumps(ev, sort_keys=True))
